@@ -93,6 +93,10 @@ ALL_FEATURES = [
                             # typed ones (u8 / u16), used inside wider expressions
     "const_arrays",         # constant (non-comptime) array globals whose items are other globals
                             # of the same or a narrower number type:  ka :: i64.[c1, uc2, 3];
+    "generic_enums",        # a type-returning generic function whose result is an enum, instantiated
+                            # several times as globals; functions that build values of one of them
+    "alias_hops",           # alias chains over usize consts (na :: n1;), array types named by a
+                            # global (AT :: [na]i64;), enum discriminants taken from consts
     "indirect_refs",        # variants may name a definition of another file *through a third file*:
                             # imp1.imp2.name
 ]
@@ -500,6 +504,8 @@ class _Gen:
             t = r.choice(["i64", "i64", "u8", "i32"])
             if "usize_sizes" in self.f and self.usize_consts and r.random() < 0.7:
                 c = r.choice(sorted(self.usize_consts))
+                if getattr(self, "usize_aliases", None) and r.random() < 0.5:
+                    c = r.choice(self.usize_aliases)
                 item.deps.add(c)
                 return ("array", c, self.usize_consts[c], t)
             n = r.randint(1, 4)
@@ -607,7 +613,13 @@ class _Gen:
         name = self.fresh("n")
         it = Item(name, "usize")
         r = self.rnd
-        if self.usize_consts and "const_chain" in self.f and r.random() < 0.4:
+        if self.usize_consts and "alias_hops" in self.f and r.random() < 0.45:
+            c = r.choice(sorted(self.usize_consts))
+            it.deps.add(c)
+            val = self.usize_consts[c]
+            it.render = lambda ref: "%s :: %s;" % (name, ref(c))
+            self.usize_aliases = getattr(self, "usize_aliases", []) + [name]
+        elif self.usize_consts and "const_chain" in self.f and r.random() < 0.4:
             c = r.choice(sorted(self.usize_consts))
             it.deps.add(c)
             val = self.usize_consts[c] + 1
@@ -696,6 +708,16 @@ class _Gen:
                 it.deps.add(s)
                 payload = ("named", s)
             disc = discs[i] if "enum_discriminants" in self.f and r.random() < 0.5 else None
+            if disc is not None and "alias_hops" in self.f and i == 0 and r.random() < 0.6:
+                # the discriminant is a (typed, small) const global: a compile-time-value context
+                dc = self.fresh("dc")
+                dit = Item(dc, "small_const")
+                dv = disc
+                dit.render = lambda ref, dc=dc, dv=dv: "%s : u8 : %d;" % (dc, dv)
+                dit.uses = lambda ref, tmp, dc=dc: ["emit(i64.(%s));" % ref(dc)]
+                self.p.add(dit)
+                it.deps.add(dc)
+                disc = ("const", dc)
             variants.append(("V%d" % i, payload, disc))
         self.enums[name] = variants
 
@@ -705,7 +727,9 @@ class _Gen:
                 s = vn
                 if payload is not None:
                     s += ": " + self.type_text(payload, ref)
-                if disc is not None:
+                if isinstance(disc, tuple):
+                    s += " | %s" % ref(disc[1])
+                elif disc is not None:
                     s += " | %d" % disc
                 parts.append(s)
             return "%s :: enum { %s };" % (name, ", ".join(parts))
@@ -1729,16 +1753,20 @@ class _Gen:
         self.int_fns.append(name)
 
     def mk_global_type_inst(self):
-        if getattr(self, "have_type_inst", False):
-            return self.mk_const()
         r = self.rnd
-        self.have_type_inst = True
-        vec = self.fresh("Vec")
-        vit = Item(vec, "type_fn")
-        vit.is_function = True
-        vit.render = lambda ref: ("%s :: (comptime T: type, comptime n: usize) -> type {\n"
-                                  "    struct { data: [n]T, len: i64 }\n}") % vec
-        self.p.add(vit)
+        n_inst = getattr(self, "n_type_inst", 0)
+        if n_inst >= 3:
+            return self.mk_const()
+        self.n_type_inst = n_inst + 1
+        if n_inst == 0 or (r.random() < 0.3):
+            vec = self.fresh("Vec")
+            vit = Item(vec, "type_fn")
+            vit.is_function = True
+            vit.render = lambda ref, vec=vec: ("%s :: (comptime T: type, comptime n: usize) -> type {\n"
+                                               "    struct { data: [n]T, len: i64 }\n}") % vec
+            self.p.add(vit)
+            self.vec_fns = getattr(self, "vec_fns", []) + [vec]
+        vec = r.choice(self.vec_fns)
         k = r.randint(2, 4)
         t = r.choice(["i64", "i32", "u8"])
         name = self.fresh("VT")
@@ -1801,6 +1829,83 @@ class _Gen:
         self.p.add(it)
         if elem == "i64":
             self.global_arrays = getattr(self, "global_arrays", []) + [name]
+
+    def mk_array_type_alias(self):
+        if not self.usize_consts:
+            return self.mk_usize()
+        r = self.rnd
+        name = self.fresh("AT")
+        it = Item(name, "array_alias")
+        c = r.choice(sorted(self.usize_consts))
+        if getattr(self, "usize_aliases", None) and r.random() < 0.7:
+            c = r.choice(self.usize_aliases)
+        n = self.usize_consts[c]
+        it.deps.add(c)
+        t = r.choice(["i64", "i64", "u8", "i32"])
+        it.render = lambda ref: "%s :: [%s]%s;" % (name, ref(c), t)
+        v0 = r.randint(1, 40)
+
+        def uses(ref, tmp):
+            x = tmp("at")
+            elems = ", ".join(str(v0 + i) for i in range(n))
+            return ["%s : %s = %s.[%s];" % (x, ref(name), t, elems),
+                    "emit(i64.(%s[%d]) + i64.(%s.len));" % (x, n - 1, x)]
+
+        it.uses = uses
+        self.p.add(it)
+
+    def mk_generic_enum(self):
+        r = self.rnd
+        gens = getattr(self, "generic_enum_fns", [])
+
+        def add_inst(g):
+            insts = self.generic_enum_insts
+            used = set(t for _, t in insts)
+            t = r.choice([x for x in ["i64", "u8", "bool", "i32", "u16"] if x not in used] or ["i64"])
+            name = self.fresh("OT")
+            it = Item(name, "type_inst")
+            it.deps.add(g)
+            it.render = lambda ref: "%s :: comptime %s(%s);" % (name, ref(g), t)
+            self.p.add(it)
+            insts.append((name, t))
+
+        if not gens:
+            name = self.fresh("Opt")
+            it = Item(name, "type_fn")
+            it.is_function = True
+            it.render = lambda ref: ("%s :: (comptime T: type) -> type {\n    enum { Some: T, None }\n}") % name
+            self.p.add(it)
+            self.generic_enum_fns = [name]
+            self.generic_enum_insts = []
+            add_inst(name)
+            add_inst(name)
+            return
+        g = r.choice(gens)
+        insts = self.generic_enum_insts
+        if len(insts) < 4 and r.random() < 0.3:
+            add_inst(g)
+            return
+        inst, t = r.choice(insts)
+        name = self.fresh("pk")
+        it = Item(name, "fn")
+        it.is_function = True
+        it.deps.add(inst)
+        if t == "bool":
+            some, back = "a % 3 == 0", "if bool.(x) { 1 } else { 2 }"
+        else:
+            some, back = "%s.(a %% 90 + 3)" % t, "i64.(x)"
+
+        def render(ref):
+            # `v` is typed by joining the types of the two branches (two variants of one enum)
+            return ("%s :: (a: i64) -> i64 {\n    v := if a %% 2 == 0 { %s.Some.(%s) } else { %s.None };\n"
+                    "    switch x in v {\n        .Some => %s,\n        .None => 0 - 1,\n    }\n}"
+                    % (name, ref(inst), some, ref(inst), back))
+
+        it.render = render
+        a1, a2 = r.randint(0, 9), r.randint(0, 9)
+        it.uses = lambda ref, tmp: ["emit(%s(%d));" % (ref(name), a1), "emit(%s(%d));" % (ref(name), a2 + 1)]
+        self.p.add(it)
+        self.int_fns.append(name)
 
     def build(self):
         self.add_prelude()
@@ -1883,6 +1988,10 @@ class _Gen:
             menu.append(("anon_literal", self.mk_anon_literal, 1))
         if "global_type_inst" in f:
             menu.append(("global_type_inst", self.mk_global_type_inst, 1))
+        if "generic_enums" in f:
+            menu.append(("generic_enum", self.mk_generic_enum, 3))
+        if "alias_hops" in f and "usize_sizes" in f:
+            menu.append(("array_type_alias", self.mk_array_type_alias, 2))
         if "untyped_consts" in f:
             menu.append(("untyped_const", self.mk_untyped_const, 2))
         if "const_arrays" in f:
@@ -1913,9 +2022,12 @@ class _Gen:
 def generate(rnd, features=None, n_globals=None):
     """features: iterable of feature names (default: a seeded subset = swarm)"""
     if features is None:
+        # swarm: the density of enabled features is itself drawn per program, so that some
+        # programs concentrate their 3-12 globals on a few constructs and others mix many
+        density = rnd.choice([0.12, 0.25, 0.4, 0.55])
         features = {"functions"}
         for f in ALL_FEATURES:
-            if rnd.random() < (0.2 if f == "use_core" else 0.55):
+            if rnd.random() < (min(0.2, density) if f == "use_core" else density):
                 features.add(f)
     if n_globals is None:
         n_globals = rnd.randint(3, 12)
